@@ -76,6 +76,46 @@ def gen_cases(ctx):
         if any(k in (2, 3, 4) for k in kinds) and rng.random() < 0.7:
             cfg["bloch_k"] = [rng.uniform(-3.0, 3.0) for _ in range(3)]
         cases.append({"id": f"t-{flavour}{n}-{'x'.join(map(str, shape))}-k{'.'.join(map(str, kinds))}", "mode": "tol", "cfg": cfg, "seed": rng.randrange(10**6)})
+    # material arrays with DIFFERENT component counts (isotropic permittivity + diagonal conductivity and vice versa,
+    # likewise permeability), by direct array replacement and through the public pipeline (Material with scalar
+    # permittivity and tuple conductivity); conductivity small along one axis, larger along the others
+    # (a) periodic box at courant_factor 0.99, vacuum permeability (inv_mu stays the pipeline's scalar), isotropic random
+    #     permittivity in [1,4], loss number a = c sigma eta0 inv_eps / 2 <= 0.02 along one axis and <= 1.5 along the
+    #     others, 24 steps: an update that mixes up the components of sigma is then unstable and the energy GROWS
+    for n in range(4 if ctx.quick else 12):
+        shape = rng.choice([[3, 2, 2], [4, 3, 3], [3, 4, 2], [6, 6, 6]]) if n >= 4 else [[4, 3, 3], [3, 2, 2], [3, 4, 2], [2, 3, 4]][n]
+        cells = shape[0] * shape[1] * shape[2]
+        small = (0, 0, 1, 2)[n % 4]
+        cnum = 0.99 / 3**0.5
+        eps = [rng.uniform(1.0, 4.0) for _ in range(cells)]
+        fsig = []
+        for comp in range(3):
+            fsig += [2.0 * (rng.uniform(0.0, 0.02) if comp == small else rng.uniform(0.0, 1.5)) * eps[k] / cnum for k in range(cells)]
+        cfg = {"shape": shape, "kinds": [1, 1, 1], "T": 24, "cf": 0.99, "comp": {"ie": 1, "sig": 3}, "fie": [1.0 / e for e in eps] * 3, "fsig": fsig}
+        cases.append({"id": f"t-counts-box{n}-eps1sig3-small{'xyz'[small]}-{'x'.join(map(str, shape))}", "mode": "tol", "cfg": cfg, "seed": rng.randrange(10**6)})
+    # (b) every combination of component counts, random boundary kinds
+    combos = [(1, 3, 3), (3, 1, 1), (1, 3, 1), (1, 1, 3), (3, 3, 1), (3, 1, 3)]
+    for n in range(len(combos) if ctx.quick else 4 * len(combos)):
+        ie_n, sig_n, im_n = combos[n % len(combos)]
+        shape = [rng.randint(3, 5), rng.randint(2, 4), rng.randint(2, 3)]
+        rng.shuffle(shape)
+        kinds = [1, 1, 1] if n % 2 == 0 else Y.random_kinds(rng)
+        cells = shape[0] * shape[1] * shape[2]
+        small = rng.randrange(3)
+        fsig = []
+        for comp in range(3):
+            fsig += [rng.uniform(0.0, 0.1) if comp == small else rng.uniform(0.0, 6.0) for _ in range(cells)]
+        cfg = {"shape": shape, "kinds": kinds, "T": 6, "comp": {"ie": ie_n, "sig": sig_n, "im": im_n},
+               "fie": [rng.uniform(0.25, 1.0) for _ in range(3 * cells)], "fim": [rng.uniform(0.3, 1.0) for _ in range(3 * cells)], "fsig": fsig}
+        cases.append({"id": f"t-counts{n}-eps{ie_n}sig{sig_n}mu{im_n}-{'x'.join(map(str, shape))}-k{'.'.join(map(str, kinds))}", "mode": "tol", "cfg": cfg, "seed": rng.randrange(10**6)})
+    # (c) through the public pipeline: Material with scalar / tuple permittivity, permeability and conductivity, cf 0.99
+    slabs = [{"eps": 2.0, "sigma": [2e3, 3.0e5, 4.0e5]}, {"eps": [2.0, 3.0, 4.0], "sigma": 1.2e5}, {"eps": 2.0, "mu": [1.0, 2.0, 1.5], "sigma": [2e5, 4e3, 1e5]},
+             {"eps": 1.5, "sigma": [1e5, 2e5, 1e3]}, {"eps": [1.5, 2.5, 2.0], "mu": 1.5, "sigma": [5e3, 5e3, 3e5]}]
+    for n, sl in enumerate(slabs if not ctx.quick else slabs[:3]):
+        shape = [rng.randint(3, 5), rng.randint(3, 4), rng.randint(2, 3)]
+        kinds = [1, 1, 1] if n % 2 == 0 else Y.random_kinds(rng)
+        cfg = {"shape": shape, "kinds": kinds, "T": 24, "cf": 0.99, "slab": dict(lo=[0, 0, 0], hi=list(shape), **sl)}
+        cases.append({"id": f"t-pipeline-material{n}-{'x'.join(map(str, shape))}-k{'.'.join(map(str, kinds))}", "mode": "tol", "cfg": cfg, "seed": rng.randrange(10**6)})
     return cases
 
 
@@ -122,24 +162,30 @@ def observe(case):
         B = 6
         E0, H0 = Y.float_states(cfg, rs, B, cplx)
         E, H = jnp.asarray(E0, dtype=dt), jnp.asarray(H0, dtype=dt)
-        lossy = cfg.get("fsig") is not None
+        lossy = arrays.electric_conductivity is not None
         # energy of the initial state: H one half-step earlier through the code's own reverse H update (backward())
         _, Hm1 = vb(jnp.ones((B,), dtype=jnp.int32), E, H)
         Ws = [Y.energy(cfg, arrays, np.asarray(E), np.asarray(Hm1), np.asarray(H))]
+        Ds = []
         ref = None
         for step in range(cfg["T"]):
-            Hp = H
+            Hp, Ep = H, E
             E, H = vf(jnp.full((B,), step, dtype=jnp.int32), E, H)
             Ws.append(Y.energy(cfg, arrays, np.asarray(E), np.asarray(Hp), np.asarray(H)))
+            Ds.append(Y.dissipation(cfg, arrays, config, np.asarray(Ep), np.asarray(E)))
             if ref is None:
                 ref = Y.energy_scale(cfg, arrays, np.asarray(E), np.asarray(Hp), np.asarray(H))  # scale of W1's terms
-        Ws = np.stack(Ws)  # (T, B)
+        Ws = np.stack(Ws)  # (T + 1, B)
         for step in range(0, cfg["T"]):
             d = (Ws[step + 1] - Ws[step]) / ref
             if lossy:
-                rec["mons"].append({"name": f"energy increased over step {step} with non-negative conductivity", "d": Y.scaled(float(np.max(d))), "two": False})
+                rec["mons"].append({"name": f"energy increased over step {step} with non-negative conductivity", "d": Y.scaled(float(np.max(d))), "two": False, "soft": False})
+                # stronger than the statement: W' - W + (per-component manifest dissipation) = 0  -> spec drift only
+                bal = (Ws[step + 1] - Ws[step] + Ds[step]) / ref
+                rec["mons"].append({"name": f"energy balance with the per-component dissipation term off at step {step}", "d": Y.scaled(float(np.max(np.abs(bal)))), "two": True, "soft": True})
             else:
-                rec["mons"].append({"name": f"energy changed over lossless step {step}", "d": Y.scaled(float(np.max(np.abs(d)))), "two": True})
+                rec["mons"].append({"name": f"energy changed over lossless step {step}", "d": Y.scaled(float(np.max(np.abs(d)))), "two": True, "soft": False})
+        rec["component_counts"] = Y.component_counts(arrays)
         rec["lossy"] = bool(lossy)
         rec["dissipated_fraction"] = float(1 - np.min(Ws[-1] / Ws[0]))
     return rec
